@@ -109,6 +109,16 @@ def boundary_cases():
     for n in (255, 256, 257, 300, 65535, 65536, 65537):
         cases.append(("name-%d-bytes" % n, name_len(n)))
 
+    def xattr_key_len(n):
+        # the on-disk key size is a 16 bit field that counts the bytes after the "user." / "trusted." / "security." prefix
+        def b(r):
+            t = {b"": Node("dir", 0o755), b"f": Node("file", 0o644, data=[("bytes", b"x")], xattrs={b"user." + b"k" * n: b"value", b"user.short": b"1"}),
+                 b"g": Node("file", 0o644, data=[("bytes", b"y")], xattrs={b"user.other": b"2"})}
+            return t, base_cfg(xattr_file=True), ("ok" if n <= 65535 else "refuse")
+        return b
+    for n in (255, 256, 65535, 65536, 70000):
+        cases.append(("xattr-key-%d-bytes" % n, xattr_key_len(n)))
+
     def dev(maj, mi):
         def b(r):
             t = {b"": Node("dir", 0o755), b"c": Node("cdev", 0o600, dev=(maj, mi)), b"b": Node("bdev", 0o600, dev=(maj, mi))}
